@@ -189,6 +189,71 @@ pub fn record_bounds(b: &[u8]) -> Vec<usize> {
     out
 }
 
+/// The `crash_in_open` step: the directory is a post-crash image; recovery starts, performs only its first
+/// k file-modifying calls, and the machine dies again.  The real recovery is run to the end (quietly), the
+/// directory after its k-th modifying call is rebuilt from the FS log, and the run continues on that image.
+/// keep=false: power loss, unsynced bytes (the new head) are lost; keep=true: everything written survives.
+pub fn crash_in_open_step(s: &mut Session, step: &Value) {
+    use std::sync::Arc;
+    let cfg = crate::session::Cfg::from_json(&step["cfg"]);
+    let k = step["k"].as_u64().unwrap_or(1) as usize;
+    let keep = step["keep"].as_bool().unwrap_or(false);
+    let dirkey = dir_key(&s.root, &s.dir);
+    // base: what is in the directory now (a materialised image: all of it is durable)
+    let mut files: BTreeMap<String, FileImg> = BTreeMap::new();
+    for (name, content) in dir_digest(&s.dir) {
+        let n = content.len();
+        files.insert(name, FileImg { content, synced: n, linked: true });
+    }
+    let seq0 = {
+        let mut sh = shim::shim();
+        sh.quiet = true;
+        sh.seq
+    };
+    let n_before = crate::gate::worker_count();
+    let config = Arc::new(cfg.config(&s.dir));
+    let r = std::panic::catch_unwind(std::panic::AssertUnwindSafe(|| raft_log::RaftLog::<crate::types::VT>::open(config)));
+    if let Ok(Ok(rl)) = r {
+        if let Some(w) = crate::gate::wait_new_worker(n_before) {
+            crate::gate::set_free(&w);
+            shim::shim().ignore_tids.insert(w);
+        }
+        drop(rl);
+    }
+    let recs: Vec<FsRec> = {
+        let mut sh = shim::shim();
+        sh.quiet = false;
+        sh.fslog.iter().filter(|r| r.seq > seq0 && r.dir == dirkey && r.tid == "c").cloned().collect()
+    };
+    shim::log_event(json!({"e": "b", "op": "open", "args": cfg.to_json()}));
+    let mut nmod = 0;
+    for r in recs.iter() {
+        if nmod >= k {
+            break;
+        }
+        apply(&mut files, r);
+        shim::log_event(json!({"e": "fs", "t": "c", "call": r.call, "ck": shim::chunk_of(&r.file), "file": r.file,
+                               "off": r.off, "len": r.len, "res": r.res, "fl": r.flags}));
+        if matches!(r.call, "ftruncate" | "unlink" | "creat" | "write") && r.file != "LOCK" && r.res >= 0 {
+            nmod += 1;
+        }
+    }
+    let mut img: BTreeMap<String, Vec<u8>> = BTreeMap::new();
+    let mut desc = vec![];
+    for (name, f) in files.iter() {
+        if !f.linked || name == "LOCK" {
+            continue;
+        }
+        let n = if keep { f.content.len() } else { f.synced.min(f.content.len()) };
+        desc.push(json!([shim::chunk_of(name), n, 0, "none", f.synced, f.content.len()]));
+        img.insert(name.clone(), f.content[..n].to_vec());
+    }
+    s.generation += 1;
+    s.dir = format!("{}/{}.{}", s.root, s.run, s.generation);
+    materialize(&s.dir, &img);
+    shim::log_event(json!({"e": "crash", "kind": "power", "img": desc, "in_recovery": nmod}));
+}
+
 /// The `crash` step: abandon the instance and continue on an image of the directory.
 ///
 /// step.kind = "process": every completed call is kept (the directory as it is now).
